@@ -1281,3 +1281,16 @@ Lemma example_records_lemma :
   ic_pn (i_cnt (fst (run_records true (merge_key false) example_records))) = 2 /\
   ic_dn (i_cnt (fst (run_records true (merge_key false) example_records))) = 2.
 Proof. split; [repeat constructor|]. vm_compute. split; reflexivity. Qed.
+
+(* used by C18 (nothing only in memory): when the feeder has finished nothing is left in the queues or with the
+   consumer, and what is still pending has been saved *)
+Lemma buffer_done_locations_lemma : forall cfg n0 evs s,
+  b_run cfg (b_init n0) evs = Some s -> b_phase s = BDone ->
+  b_queue s = [] /\ b_hand s = None /\ b_window s = [] /\ b_held s = [] /\
+  all_saved (b_parked s) /\ m_pending (b_m s) = zlen (b_parked s).
+Proof.
+  intros cfg n0 evs s Hr Hd.
+  destruct (b_run_inv cfg n0 evs _ _ (b_init_inv cfg n0) Hr) as [I1 _ _ I4 _ _ _ _ I9].
+  destruct (I9 Hd) as (Hq & Hh & Hw & Hheld). unfold b_holdings in I1. rewrite Hq, Hh, Hw, Hheld in I1.
+  cbn [len_opt] in I1. rewrite zlen_nil in I1. repeat split; try assumption; lia.
+Qed.
